@@ -1,6 +1,7 @@
 package verifsim
 
 import (
+	"net/http"
 	"context"
 	"encoding/base64"
 	"crypto/sha256"
@@ -40,6 +41,7 @@ type JobRun struct {
 	curJob         string   // C17: the job of the tick in progress
 	carryIn        []string // C10: what a run killed inside a batch passed to the transform / the sink
 	carryOut       []string
+	svc            *c10Service // C10: the service behind an HttpTransform job
 	crashDirs      []string
 	lastRunFailed  bool
 	failNextCommit bool
@@ -112,6 +114,9 @@ func (r *JobRun) installFaults(jobID string, spec map[string]any) {
 	r.seenPoint = map[string]int{}
 	r.delivered = nil
 	r.toTransform = nil
+	if r.svc != nil {
+		r.svc.reset(spec)
+	}
 	hooks.onFaultOn = func(owner any, name string, subject any, hit int64) error {
 		r.recMu.Lock()
 		defer r.recMu.Unlock()
@@ -331,6 +336,14 @@ func RunJobScenario(sc *Scenario) (vd *Verdict) {
 		return
 	}
 	r.H = h
+	for i := range sc.Ops {
+		if t, ok := sc.Ops[i].M["transform"].(map[string]any); ok && sc.Ops[i].K == "addJob" && t["Type"] == "HttpTransform" && r.svc == nil {
+			r.svc = &c10Service{r: r}
+			oldT := http.DefaultTransport
+			http.DefaultTransport = r.svc
+			defer func() { http.DefaultTransport = oldT }()
+		}
+	}
 	defer func() {
 		r.clearFaults()
 		for _, d := range r.crashDirs {
@@ -602,11 +615,22 @@ func (r *JobRun) runOp(op *Op, i int) *Violation {
 	if res == nil {
 		return viol(prop, "job-run", "no-result", "job %s ended without a stored result", id)
 	}
-	if prop == "C10" && lastErr != "" && intOf(spec, "killTransformAt") > 0 {
+	brokenAnswer := ""
+	if r.svc != nil {
+		brokenAnswer = r.svc.fired
+	}
+	if prop == "C10" && brokenAnswer != "" && lastErr == "" {
+		return viol("C10", "transform-delivery", "run-succeeds-on-broken-transform-answer", "the transform service's answer to request %d of the run was broken off (%s), the run ended as a success: what the service had not yet returned never reaches the sink", intOf(r.svc.fault, "at"), brokenAnswer)
+	}
+	if prop == "C10" && lastErr != "" && (intOf(spec, "killTransformAt") > 0 || brokenAnswer != "") {
 		// a killed run cannot deliver everything; what it delivered counts for the run that follows it
 		r.carryIn = append(r.carryIn, flatten(r.toTransform)...)
 		r.carryOut = append(r.carryOut, flatten(r.delivered)...)
-		r.Stats["runs_killed_in_transform"]++
+		if brokenAnswer != "" {
+			r.Stats["runs_failed_on_broken_transform_answer"]++
+		} else {
+			r.Stats["runs_killed_in_transform"]++
+		}
 	} else if prop == "C10" {
 		if v := r.checkTransformDelivery(id, jobType, cfg, lastErr); v != nil {
 			return v
@@ -790,6 +814,13 @@ func (r *JobRun) checkTransformDelivery(id, jobType string, cfg map[string]any, 
 		}
 		_ = cls
 		return viol("C10", "transform-delivery", "delivery-mismatch", "cell %s: [transform input] the source delivered %d entities %v, the transform received %d: %v", cell, len(expIDs), shortAll(expIDs), len(gotIn), shortAll(gotIn))
+	}
+	if r.svc != nil {
+		// the service's own record: it was sent every source entity once, in source order
+		if sent := flatten(r.svc.got); strings.Join(sent, ",") != strings.Join(expIDs, ",") {
+			return viol("C10", "transform-delivery", "delivery-mismatch", "cell %s: [service input] the source delivered %v, the transform service was sent %v", cell, shortAll(expIDs), shortAll(sent))
+		}
+		r.Stats["transform_service_checks"]++
 	}
 	expOut := applyVariant(variant, expIn)
 	gotOut := flatten(r.delivered)
